@@ -476,6 +476,54 @@ def read_oracle(o):
     return fails
 
 
+def pause_oracle(o):
+    """C01 "across pausing and resuming reading": an independent replay of the pause/resume requests.  A request made
+    on the loop thread takes effect at once, one made on another thread when the loop runs its functors in the next
+    iteration, in call order (FIFO).  Whenever, at the poll of an iteration, the connection is up, the replay says it
+    is reading and bytes the peer wrote are still waiting in the kernel, that iteration must read (a `readv` call).
+    Judged up to the first pause/resume request made inside a callback (their place relative to the functor phase is
+    not visible in the trace), the first close/destruction, or a poll that was interrupted."""
+    fails = []
+    reading, up = True, False
+    fq = []                  # requests of other threads, not yet processed by the loop
+    wrote = got = 0
+    for i in range(o.n):
+        op = o.ops[i].split()
+        lines = o.blocks[i]
+        if any(l.startswith("# act hook:") and l.split()[4] in ("stopRead", "startRead") for l in lines):
+            return fails
+        if any(l in ("cb DOWN", "destroyed") or l.startswith("abort ") or l.startswith("uaf ") or l.startswith("<<") for l in lines) \
+                or op[0] in ("ownerDestroy", "peerClose", "peerShutWr"):
+            return fails
+        for pw in o.env(i, "peerWrote"):
+            wrote += int(pw[2])
+        if op[0] == "establish":
+            up = True
+        elif op[0] == "act":
+            a = next((x for x in o.acts if x.step == i and not x.hook), None)
+            if a is not None and a.name in ("stopRead", "startRead"):
+                if a.who == "F":
+                    fq.append(a.name)
+                elif up:                 # (a request on a connection that is not up does nothing)
+                    reading = a.name == "startRead"
+        elif op[0] == "iter":
+            reads = o.env(i, "readv")
+            interrupted = any(l.startswith("# poll EINTR") for l in lines) or not o.env(i, "poll")
+            if up and reading and wrote > got and not reads and not interrupted:
+                fails.append(("read-stalled", "step %d `iter`: the connection is up, the last pause/resume request processed was "
+                              "startRead() (or none), %d bytes written by the peer are waiting, but this iteration made no read: read "
+                              "interest is off although the application resumed reading" % (i, wrote - got)))
+                return fails
+            for r in reads:
+                if r[2].isdigit():
+                    got += int(r[2])
+            for name in fq:              # the functor phase of this iteration
+                if up:
+                    reading = name == "startRead"
+            del fq[:]
+    return fails
+
+
 def spin_oracle(o):
     """C11: the loop makes exactly one iteration per `iter` step (the harness wakes it once per step): a loop that
     spins or exits shows as a different iteration() count"""
